@@ -398,6 +398,8 @@ def rule_g(ctx):
 
 
 def run(ctx):
+    from .. import fixtures
+    ctx.guarded("C01.FX", lambda c: fixtures.run(c, ['escapes', 'orderings', 'effects']))
     F = ctx.F
     ctx.rule("C01.a", "writer order: the value returned by the pointer swap reaches Box::from_raw only on paths through a completed "
                       "barrier call (a workspace callee that loads the reader slots)", floor=2)
